@@ -50,6 +50,11 @@ func CleanSpace(s string) string {
 	s = strings.Replace(s, "  ", " ", -1)
 	s = strings.Replace(s, "  ", " ", -1)
 
+	// Longer runs of spaces need more passes.
+	for strings.Contains(s, "  ") {
+		s = strings.Replace(s, "  ", " ", -1)
+	}
+
 	// Trim whatever spaces are left on either side.
 	s = strings.TrimSpace(s)
 
